@@ -13,7 +13,7 @@ import sys
 
 VERIF = os.path.dirname(os.path.dirname(os.path.abspath(__file__)))
 SEEDED = os.path.join(VERIF, "seeded")
-REPO = "/repo"
+REPO = os.environ.get("PYREX_REPO", "/repo")
 
 
 def sh(cmd, cwd=None, env=None, timeout=3600):
